@@ -928,8 +928,6 @@ def check_requests(ctx, model, cfg):
                 continue
             # inside the property's environment, or (a single life) inside the full-strength one
             in_env = (bool(sok) or bool(sok_late)) if len(c["rids"]) == 1 else True
-            if isinstance(c["variant"], dict) and c["variant"].get("n1same"):
-                in_env = True        # a server request is a server message like any other, whatever id it bears
             judge.append((c, case, rid, [tuple(x) for x in impl], in_env))
         # unrelated traffic: complete, once, in order
         toks = {absmsg(u)[2] for u in c["unrelated"]}
@@ -965,7 +963,7 @@ def check_requests(ctx, model, cfg):
             klass = ("sse-request-no-terminal:" if n == 0 else "sse-request-multiple-terminals:") + c["label"]
         ctx.spec_violation(klass, case, f"request id {rid!r}: {n} terminal message(s); delivered {data}")
     # ordering: what was on the stream and is delivered, is delivered in stream order
-    full = cfg[I_DROP_LATE] and cfg[I_ROUTE_IN_STREAM] and cfg[1] and cfg[2]
+    full = cfg[I_DROP_LATE] and cfg[I_ROUTE_IN_STREAM] and cfg[1] and cfg[2] and cfg[I_ANSWERS_ONLY]
     due_reqs = []
     for c, o, sok_late, d in zip(cases, obs, sched_late, due):
         if len(c["rids"]) != 1:
